@@ -88,6 +88,19 @@ def generate(rng, tier):
             lines.append('ppu.tick %d' % (L.FRAME + 200))
             cases.append(('ly%d' % nly, lines))
             nly += 1
+    # LYC written equal to LY with the coincidence source selected: the write itself requests nothing
+    nlw = 0
+    for rep in range(4 if tier == 'quick' else 30):
+        lines = ['ppu.w 0x45 %d' % rng.choice([5, 77, 200]), 'ppu.w 0x41 0x40', 'ppu.tick %d' % rng.randrange(200, 9000), 'ppu.wi 0x40 0x11',
+                 'ppu.tick %d' % rng.choice([0, 1, 100]), 'ppu.wi 0x45 0', 'ppu.tick 50', 'ppu.wi 0x45 9', 'ppu.wi 0x45 0', 'ppu.wi 0x40 0x91']
+        for _ in range(4):
+            k = rng.randrange(3, 110)
+            line = rng.randrange(2, 140)
+            lines += ['ppu.wi 0x45 200', 'ppu.tick %d' % ((line * 114 - 2 + k) % L.FRAME + L.FRAME), 'ppu.r 0x44']
+            lines += ['ppu.wi 0x45 %d' % ((line + 1) % 154), 'ppu.tick 1']     # may or may not be the current line: the model decides
+        lines.append('ppu.tick 400')
+        cases.append(('lycw%d' % nlw, lines))
+        nlw += 1
     # register writes themselves request nothing, LCD on or off (IF is read straight after each write)
     nwr = 12 if tier == 'quick' else 150
     for i in range(nwr):
